@@ -684,3 +684,52 @@ def _(tier, seed):
                 if len(failures) >= 3:
                     return dict(evaluations=cases, distinct=cases, failures=failures)
     return dict(evaluations=cases, distinct=cases, failures=failures)
+
+
+from pyvc.values import SymFn
+
+
+# -- LTContainer: members are kept as a sequence in insertion order; extend takes any iterable (also a one-shot one); analyze visits every member once ----------
+class _Members:
+    """an iterable that can be walked once (generator-like)"""
+    def __init__(self, items):
+        self.items, self.walks = items, 0
+    def __sym_iter__(self, I):
+        from pyvc.values import SIter
+        self.walks += 1
+        items = self.items if self.walks == 1 else []
+        return SIter(len(items), lambda k: items[k], "one-shot")
+
+
+class _ExtendArg(T.Sort):
+    def fresh(self, ctx, name):
+        kind = ctx.choose(["list", "one-shot", "empty"], "iterable-kind")
+        analyzed = []
+        mk = lambda t: SObj(None, {"_tag": t, "analyze": SymFn(lambda I, lp, t=t: analyzed.append((t, lp)), "analyze")}, t)
+        items = [] if kind == "empty" else [mk("m1"), mk("m2")]
+        return SObj(None, {"v": list(items) if kind != "one-shot" else _Members(list(items)), "_tags": [i.f["_tag"] for i in items], "_analyzed": analyzed}, name)
+    def sample(self, rng):
+        return None
+    def from_model(self, ev, v):
+        return v.f["_tags"]
+
+
+sc = scenario("pdfminer.layout", "container-keeps-members-in-insertion-order", """
+def fill(c, first, arg):
+    c.add(first)
+    c.extend(arg.v)
+    n = len(c)
+    seen = [m for m in c]
+    c.analyze("the-laparams")
+    return (n, seen)
+""", props=["C08"])
+sc.param("c", T.Obj("pdfminer.layout:LTContainer", _objs=T.Const(None))).param("first", T.Const(None)).param("arg", _ExtendArg())
+sc.wire = lambda bound, ghosts: (bound["c"].f.__setitem__("_objs", []), bound.__setitem__("first", SObj(None, {"_tag": "m0", "analyze": SymFn(
+    lambda I, lp: bound["arg"].f["_analyzed"].append(("m0", lp)), "analyze")}, "m0")))
+sc.skip_cross = True
+sc.inline_callees = True
+sc.mod("c._objs").mod("arg.*")
+sc.returns(T.Opaque("pair"))
+sc.ens("members-in-insertion-order-each-once-each-analysed-once", lambda c, arg, result: (
+    result[0] == 1 + len(arg._tags) and [m.f["_tag"] for m in result[1]] == ["m0"] + arg._tags and [m.f["_tag"] for m in c._objs] == ["m0"] + arg._tags
+    and arg._analyzed == [(t, "the-laparams") for t in ["m0"] + arg._tags]))
